@@ -248,3 +248,41 @@ class VSocketMod:
 
     def gethostbyname(self, n):
         return "127.0.0.1"
+
+
+# ---------------------------------------------------------------------- fake pysctp (real SCTP cannot be exercised offline)
+
+class _SctpStatus:
+    state_ESTABLISHED = 4
+
+    def __init__(self, established):
+        self.state = 4 if established else 0
+
+
+class FakeSctpSocket(FakeSocket):
+    def get_status(self):
+        return _SctpStatus(self.state == "conn" and not self.closed and not (self.peer is not None and self.peer.closed))
+
+
+class FakeSctpModule:
+    """stands for the `sctp` module of pysctp: sctpsocket_tcp(family) -> socket-like object"""
+
+    def __init__(self, net):
+        self.net = net
+
+    def sctpsocket_tcp(self, family):
+        return FakeSctpSocket(self.net)
+
+
+class FakeSctpLowLevel:
+    """stands for `_sctp`"""
+
+    @staticmethod
+    def getconstant(name):
+        return {"IPPROTO_SCTP": 132}.get(name, 0)
+
+
+def install_fake_sctp(net):
+    import sys
+    sys.modules["sctp"] = FakeSctpModule(net)
+    sys.modules["_sctp"] = FakeSctpLowLevel()
